@@ -22,3 +22,25 @@ def tr(adt, trait, targs, name, self_ref=False):
 
 
 LOSSLESS_TO_U32 = {"u8", "u16", "u32"}
+
+from analysis.guards import BN, PI, OPAQUE  # noqa: E402
+
+
+def C(adt, name):
+    """representative: a named constant of the ADT"""
+    return lambda W: W.const(adt, name)
+
+
+def V(adt, v):
+    return lambda W: W.wrap(adt, v)
+
+
+def env_of(**kw):
+    """env_of(p0=fn, p1=fn) -> env_fn(W)"""
+    def f(W):
+        return {int(k[1:]): (v(W) if callable(v) else v) for k, v in kw.items()}
+    return f
+
+
+def expect(e):
+    return lambda W, env: e
